@@ -704,6 +704,7 @@ def check(repo, rep, tier):
   c20b.rule_metric_init_table(repo, rep)
   c20b.rule_components_init_table(repo, rep)
   c20b.rule_sqrt_domain(repo, rep)
+  c20b.rule_no_destructive_option(repo, rep)
   # an array prior / init holds the same numbers whatever its dtype
   from . import c06
   c06.rule_int_safe(repo, rep, only=('ITML', 'ITML_Supervised', 'LSML',
